@@ -29,6 +29,7 @@ import ZapProofs.WriterLemmasStored
 import ZapProofs.WriterLemmasLayoutDefs
 import ZapProofs.WriterLemmasLayoutFinal
 import ZapProofs.WriterLemmasLayoutStored
+import ZapProofs.WriterLemmasLayoutStoredCex
 import ZapProofs.CodecLemmasContent
 
 namespace Zap.Props.C09Bytes
